@@ -53,7 +53,7 @@ def run(ctx):
     obs = ctx.obs
     obs.extra['meta'] = META
     contracts.attach_all(obs, only={'make_polygons_with_holes'})
-    total = ctx.n(600, 20000)
+    total = ctx.n(1200, 25000)
     for case, rng in ctx.cases(total):
         conv = CONVENTIONS[case % len(CONVENTIONS)]
         kw = {}
